@@ -13,7 +13,8 @@ cleanup() { git -C /repo worktree remove --force $W/repo >/dev/null 2>&1; rm -rf
 trap cleanup EXIT
 git -C /repo worktree add -q --detach $W/repo HEAD || exit 2
 (cd $W/repo && git apply "$P") || { echo "patch does not apply"; exit 2; }
-rsync -a --exclude work --exclude replays --exclude seeded --exclude .git --exclude evidence /verif/ $W/verif/
+# the committed state of /verif (edits in progress in the working tree do not leak into the run)
+git -C /verif archive HEAD -- check harness tools known_findings.json MANIFEST.json | tar -x -C $W/verif
 mkdir -p $W/verif/evidence $W/verif/work
 sed -i "s|path = \"/repo\"|path = \"$W/repo\"|" $W/verif/harness/Cargo.toml
 # warm build cache (third-party crates); bpaf and the harness are rebuilt because their paths differ
